@@ -35,6 +35,9 @@ def generate(rng, tier, shard, nshards):
         if gi % 2 == 0:      # a caller-chosen end-of-sequence symbol (a character, a word, a token id)
             yield event("addeos", dict(base, L=3, eos=rng.choice(["u0024", "end", "<7>"])), site="add_EOS(eos=...)",
                              feat=feat + "+custom-eos")
+        if gi % 4 == 1:      # wrapped twice (a sentence marker inside a document marker)
+            yield event("addeos", dict(base, L=3, eos="u0024", eos2=rng.choice(["end", "<7>"])), site="add_EOS(add_EOS(g, $), #)",
+                        feat=feat + "+wrapped-twice")
         if srn == "Rat" and shape == "acyclic":
             yield event("normalize", dict(base, L=3), site="locally_normalize", feat=feat)
 
